@@ -45,12 +45,18 @@ Inductive Step (g : cfg) : lstate -> cat -> lstate -> cat -> event -> Prop :=
     l_chks st !! id = Some e -> ce_del e = false -> ce_sync e = false -> ce_def e = Some d ->
     tok = reg_token g (ce_tok e) (ce_loc e) ->
     cat_register (g_ni g) (l_node st) (sync_sv st d) {[id := d]} c = Some c' ->
-    Step g st c (LS true (l_svcs st) (<[id := ce_set_sync true e]> (l_chks st))) c'
+    Step g st c (LS true (l_svcs st) (<[id := ce_set_sync true (ce_clear_defer e)]> (l_chks st))) c'
          (Ev KSyncChk id tok (l_node st) (is_some (sync_sv st d)) OOk [])
+| St_chk_fail st c id e d tok :
+    (* the push failed; SyncChanges had already forgotten the pending deferred-output timer *)
+    l_chks st !! id = Some e -> ce_del e = false -> ce_sync e = false -> ce_def e = Some d ->
+    tok = reg_token g (ce_tok e) (ce_loc e) ->
+    Step g st c (LS (l_node st) (l_svcs st) (<[id := ce_clear_defer e]> (l_chks st))) c
+         (Ev KSyncChk id tok (l_node st) (is_some (sync_sv st d)) OFail [])
 | St_chk_refused st c id e d tok o :
     l_chks st !! id = Some e -> ce_del e = false -> ce_sync e = false -> ce_def e = Some d ->
     tok = reg_token g (ce_tok e) (ce_loc e) -> refusal o = true ->
-    Step g st c (LS (l_node st) (l_svcs st) (<[id := ce_set_sync true e]> (l_chks st))) c
+    Step g st c (LS (l_node st) (l_svcs st) (<[id := ce_set_sync true (ce_clear_defer e)]> (l_chks st))) c
          (Ev KSyncChk id tok (l_node st) (is_some (sync_sv st d)) o [])
 | St_delchk_ok st c id e :
     l_chks st !! id = Some e -> ce_del e = true ->
@@ -113,10 +119,10 @@ Proof.
   - destruct (ce_sync e) eqn:Sy; [auto|].
     destruct (ce_def e) as [d|] eqn:Df; [|auto].
     right. unfold sync_check, push, stepped. fold (sync_sv st d). destruct (next fs) as [o fs'] eqn:Nx. cbn [snd fst].
-    destruct o; cbn; try (fin true ltac:(apply St_fail; reflexivity)).
+    destruct o; cbn; try (fin true ltac:(eapply St_chk_fail; eauto)).
     + destruct (cat_register _ _ _ _ _) as [c'|] eqn:R.
       * fin false ltac:(eapply St_chk_ok; eauto).
-      * fin true ltac:(apply St_fail; reflexivity).
+      * fin true ltac:(eapply St_chk_fail; eauto).
     + fin false ltac:(eapply St_chk_refused; eauto).
     + fin false ltac:(eapply St_chk_refused; eauto).
 Qed.
